@@ -59,16 +59,36 @@ def solver_event(ctx):
 
 
 def eos_residual(ctx):
-    """(F(rho; Tr, pr) as coded in z_factor_DAK, name of its density parameter, FunctionInfo, solver event, path)."""
-    p, ev = solver_event(ctx)
-    a = ev.data["args"]
-    fv = a.get("f") or a.get("fun") or a.get("func") or a.get("0")
-    if not isinstance(fv, FuncV):
-        raise AnalysisError("z_factor_DAK: the solver's objective is not a local function")
-    fi = fv.info
-    if not fi.params:
-        raise AnalysisError("z_factor_DAK: objective has no parameter")
-    rp = returns(run(ctx, fi.qualname, parent_args=reduced_args(), args={fi.params[0]: Num(RHO)}))
-    if len(rp) != 1 or not isinstance(rp[0].value, Num):
-        raise AnalysisError("z_factor_DAK: objective is not a single numeric expression")
-    return rp[0].value.nf, fi, ev, p
+    """(F(rho; Tr, pr) as coded in z_factor_DAK, FunctionInfo of the objective, solver event, path).
+    The objective is evaluated the way the solver evaluates it - f(rho, *args) - inside the same trace
+    partition as z_factor_DAK itself, whether it is a closure or a module-level helper."""
+    from ..values import TupV
+    from .common import interp
+
+    q = GAS + "z_factor_DAK"
+    fi0 = ctx.P.func(q)
+    ctx.touch(q)
+    it = interp(ctx)
+    box = {}
+
+    def run(x):
+        bound = {p: reduced_args().get(p, Num(nf.sym(p))) for p in fi0.params}
+        val = x._exec_function(fi0, bound, None, None, None)
+        evs = [e for e in x.events if e.kind == "ext_call" and e.data["callee"].startswith("scipy.optimize.")]
+        if len(evs) != 1:
+            raise AnalysisError(f"z_factor_DAK: expected exactly one scipy.optimize call, found {len(evs)}")
+        a = evs[0].data["args"]
+        fv = a.get("f") or a.get("fun") or a.get("func") or a.get("0")
+        if not isinstance(fv, FuncV):
+            raise AnalysisError("z_factor_DAK: the solver's objective is not a function of the package")
+        extra = a.get("args")
+        extra_vals = list(extra.items) if isinstance(extra, TupV) else ([extra] if extra is not None else [])
+        box["F"] = x.call(fv, [Num(RHO)] + extra_vals, {}, evs[0].node, None)
+        box["fi"], box["ev"] = fv.info, evs[0]
+        return val
+
+    paths = returns(it.explore(run))
+    if len(paths) != 1 or not isinstance(box.get("F"), Num):
+        raise AnalysisError("z_factor_DAK: objective is not a single numeric expression on a single path")
+    ctx.touch(box["fi"].qualname)
+    return box["F"].nf, box["fi"], box["ev"], paths[0]
